@@ -35,14 +35,14 @@
      and reads dependencies in table order; dependency maps, ports and steps are compared as maps (by name) in the
      correspondence.
    * Python dicts cannot hold duplicate keys: duplicate port / step / dependency names are excluded by [ok_wf].
-   * DeployStep and ScheduleStep (their DeploymentConfig / BindingConfig are modelled on their own in
-     Persist/CfgModel.v, not inside a step row), commands and output processors of an ExecuteStep, hardware
-     requirements, port classes with parameters, CWL entities: outside the model.
+   * commands and output processors of an ExecuteStep, hardware requirements of a ScheduleStep, port classes with
+     parameters, CWL entities: outside the model.  Configuration objects shared between steps are saved once by the
+     code and once per occurrence by this (tree) model; ids of configuration rows are compared up to renaming.
    * Workflow.load reads params.get("input_ports", {}) (commit eb1f2ee): a row written before input ports were
      persisted loads with an empty map; the model's rows always have the field, a missing key is presented to it
      as the empty map. *)
 From Coq Require Import List Bool NArith ZArith Arith.
-From SF Require Import Base.Str DbCache.Model Persist.Model.
+From SF Require Import Base.Str DbCache.Model Persist.Model Persist.CfgModel.
 Import ListNotations.
 Local Open Scope string_scope. Local Open Scope list_scope.
 
@@ -59,7 +59,13 @@ Inductive skind :=
                                             ConditionalStep, LoopOutputStep *)
 | KJobIn (cls : string)                  (* a class whose only parameter is its job port = input dependency "__job__":
                                             subclasses of TransferStep, InputInjectorStep *)
-| KExecute (conns : list (string * string)).   (* ExecuteStep: job port, output_connectors; no command, no processors *)
+| KExecute (conns : list (string * string))    (* ExecuteStep: job port, output_connectors; no command, no processors *)
+| KDeploy (dc : pdeploy)                 (* DeployStep: its DeploymentConfig; connector port = output dependency named
+                                            after the deployment *)
+| KSchedule (b : pbinding) (prefix : string) (dirs : list jv).
+                                         (* ScheduleStep: binding (targets, filters), job prefix, the three directories;
+                                            job port = output "__job__"; connector ports = the inputs "__connector__*";
+                                            no hardware requirement *)
 Record pstep := mkstep { s_name : string; s_kind : skind; s_status : Z;
                          s_in : list (string * string); s_out : list (string * string) }.
 Record pport := mkport { p_name : string; p_cls : string }.
@@ -72,13 +78,15 @@ Inductive dcomb :=
         (keys : list string) (subs : list dcomb).
 Inductive dparams :=
 | DScatter (size_port : nat) | DGather (depth : Z) (size_port : nat) | DCombP (loop : bool) (c : dcomb)
-| DPlain (cls : string) | DJobIn (cls : string) (job_port : nat) | DExecute (job_port : nat) (conns : list (string * string)).
+| DPlain (cls : string) | DJobIn (cls : string) (job_port : nat) | DExecute (job_port : nat) (conns : list (string * string))
+| DDeploy (deployment : nat) (connector_port : nat)
+| DSchedule (targets filters : list nat) (job_port : nat) (conn_ports : list (string * nat)) (prefix : string) (dirs : list jv).
 
 Record wrow := mkwrow { wr_name : string; wr_config : jv; wr_inp : list (string * string); wr_outp : list (string * string) }.
 Record prow := mkprow { pr_name : string; pr_wf : nat; pr_cls : string }.
 Record srow := mksrow { sr_name : string; sr_wf : nat; sr_status : Z; sr_params : dparams }.
 Record drow := mkdrow { d_step : nat; d_port : nat; d_in : bool; d_name : string }.
-Record wdb := mkwdb { t_wf : list wrow; t_port : list prow; t_step : list srow; t_dep : list drow }.
+Record wdb := mkwdb { t_wf : list wrow; t_port : list prow; t_step : list srow; t_dep : list drow; t_cfg : cdb }.
 
 Definition row_at {A} (l : list A) (id : nat) : option A := match id with O => None | S k => nth_error l k end.
 
@@ -123,38 +131,55 @@ Definition dep_rows (pid : string -> option nat) (sid : nat) (is_in : bool) (l :
   : option (list drow) :=
   mapM (fun np => option_map (fun p => mkdrow sid p is_in (fst np)) (pid (snd np))) l.
 
-Definition step_params (pid : string -> option nat) (wid : nat) (s : pstep) : option dparams :=
+Definition is_connector (np : string * string) : bool := startswith "__connector__" (fst np).
+
+Definition conn_ids (pid : string -> option nat) (l : list (string * string)) : option (list (string * nat)) :=
+  mapM (fun np => option_map (fun p => (fst np, p)) (pid (snd np))) (filter is_connector l).
+
+(* the params of the step row; saving a DeployStep / ScheduleStep saves its configuration objects first *)
+Definition step_params (pid : string -> option nat) (wid : nat) (s : pstep) (cfg : cdb) : option (dparams * cdb) :=
   match s_kind s with
   | KScatter => match alookup "__size__" (s_out s) with
-                | Some pn => option_map DScatter (pid pn)
+                | Some pn => option_map (fun p => (DScatter p, cfg)) (pid pn)
                 | None => None
                 end
   | KGather dp => match alookup "__size__" (s_in s) with
-                  | Some pn => option_map (DGather dp) (pid pn)
+                  | Some pn => option_map (fun p => (DGather dp p, cfg)) (pid pn)
                   | None => None
                   end
-  | KComb lp c => Some (DCombP lp (save_comb wid c))
-  | KPlain cls => Some (DPlain cls)
+  | KComb lp c => Some (DCombP lp (save_comb wid c), cfg)
+  | KPlain cls => Some (DPlain cls, cfg)
   | KJobIn cls => match alookup "__job__" (s_in s) with
-                  | Some pn => option_map (DJobIn cls) (pid pn)
+                  | Some pn => option_map (fun p => (DJobIn cls p, cfg)) (pid pn)
                   | None => None
                   end
   | KExecute conns => match alookup "__job__" (s_in s) with
-                      | Some pn => option_map (fun j => DExecute j conns) (pid pn)
+                      | Some pn => option_map (fun j => (DExecute j conns, cfg)) (pid pn)
                       | None => None
                       end
+  | KDeploy dc => match alookup (dp_name dc) (s_out s) with
+                  | Some pn => option_map (fun p => (DDeploy (fst (save_deploy dc cfg)) p, snd (save_deploy dc cfg))) (pid pn)
+                  | None => None
+                  end
+  | KSchedule b prefix dirs =>
+      match alookup "__job__" (s_out s), conn_ids pid (s_in s) with
+      | Some pn, Some cps =>
+          option_map (fun j => (DSchedule (fst (fst (save_binding b cfg))) (snd (fst (save_binding b cfg))) j cps prefix dirs,
+                                snd (save_binding b cfg))) (pid pn)
+      | _, _ => None
+      end
   end.
 
 Fixpoint save_steps (pid : string -> option nat) (wid : nat) (steps : list pstep) (ts : list srow) (td : list drow)
-  : option (list srow * list drow) :=
+                    (cfg : cdb) : option (list srow * list drow * cdb) :=
   match steps with
-  | [] => Some (ts, td)
+  | [] => Some (ts, td, cfg)
   | s :: rest =>
       let sid := S (length ts) in
-      match step_params pid wid s, dep_rows pid sid true (s_in s), dep_rows pid sid false (s_out s) with
-      | Some dp, Some di, Some do =>
+      match step_params pid wid s cfg, dep_rows pid sid true (s_in s), dep_rows pid sid false (s_out s) with
+      | Some (dp, cfg1), Some di, Some do =>
           save_steps pid wid rest (ts ++ [mksrow (s_name s) wid (s_status s) dp])
-                     (fold_left dep_insert (di ++ do) td)
+                     (fold_left dep_insert (di ++ do) td) cfg1
       | _, _, _ => None     (* a dependency on a port that is not in workflow.ports: KeyError *)
       end
   end.
@@ -162,9 +187,9 @@ Fixpoint save_steps (pid : string -> option nat) (wid : nat) (steps : list pstep
 Definition save_wf (w : pwf) (d : wdb) : option (nat * wdb) :=
   let wid := S (length (t_wf d)) in
   let tp := t_port d ++ map (fun p => mkprow (p_name p) wid (p_cls p)) (w_ports w) in
-  match save_steps (port_id (length (t_port d)) (w_ports w)) wid (w_steps w) (t_step d) (t_dep d) with
-  | Some (ts, td) =>
-      Some (wid, mkwdb (t_wf d ++ [mkwrow (w_name w) (w_config w) (w_inp w) (w_outp w)]) tp ts td)
+  match save_steps (port_id (length (t_port d)) (w_ports w)) wid (w_steps w) (t_step d) (t_dep d) (t_cfg d) with
+  | Some (ts, td, cfg) =>
+      Some (wid, mkwdb (t_wf d ++ [mkwrow (w_name w) (w_config w) (w_inp w) (w_outp w)]) tp ts td cfg)
   | None => None
   end.
 
@@ -179,7 +204,7 @@ Definition load_deps (tp : list prow) (tdp : list drow) (sid : nat) (is_in : boo
   mapM (fun r => option_map (fun p => (d_name r, pr_name p)) (row_at tp (d_port r)))
        (filter (fun r => Nat.eqb (d_step r) sid && Bool.eqb (d_in r) is_in) tdp).
 
-Definition load_kind (tp : list prow) (wid : nat) (p : dparams) : option skind :=
+Definition load_kind (tp : list prow) (cfg : cdb) (wid : nat) (p : dparams) : option skind :=
   match p with
   | DScatter sz => match row_at tp sz with Some _ => Some KScatter | None => None end
   | DGather dp sz => match row_at tp sz with Some _ => Some (KGather dp) | None => None end
@@ -187,10 +212,21 @@ Definition load_kind (tp : list prow) (wid : nat) (p : dparams) : option skind :
   | DPlain cls => Some (KPlain cls)
   | DJobIn cls jp => match row_at tp jp with Some _ => Some (KJobIn cls) | None => None end
   | DExecute jp conns => match row_at tp jp with Some _ => Some (KExecute conns) | None => None end
+  | DDeploy did cp => match load_deploy cfg did, row_at tp cp with
+                      | Some dc, Some _ => Some (KDeploy dc)
+                      | _, _ => None
+                      end
+  | DSchedule tids fids jp cps prefix dirs =>
+      match load_binding cfg (tids, fids), row_at tp jp with
+      | Some b, Some _ =>
+          if forallb (fun cp => match row_at tp (snd cp) with Some _ => true | None => false end) cps
+          then Some (KSchedule b prefix dirs) else None
+      | _, _ => None
+      end
   end.
 
-Definition load_step (tp : list prow) (tdp : list drow) (wid : nat) (ir : nat * srow) : option pstep :=
-  match load_kind tp wid (sr_params (snd ir)) with
+Definition load_step (tp : list prow) (tdp : list drow) (cfg : cdb) (wid : nat) (ir : nat * srow) : option pstep :=
+  match load_kind tp cfg wid (sr_params (snd ir)) with
   | None => None
   | Some k =>
       match load_deps tp tdp (fst ir) true, load_deps tp tdp (fst ir) false with
@@ -205,7 +241,7 @@ Definition load_wf (d : wdb) (wid : nat) : option pwf :=
   | Some r =>
       let ports := map (fun ip => mkport (pr_name (snd ip)) (pr_cls (snd ip)))
                        (filter (fun ip => Nat.eqb (pr_wf (snd ip)) wid) (with_ids 0 (t_port d))) in
-      match mapM (load_step (t_port d) (t_dep d) wid)
+      match mapM (load_step (t_port d) (t_dep d) (t_cfg d) wid)
                  (filter (fun ir => Nat.eqb (sr_wf (snd ir)) wid) (with_ids 0 (t_step d))) with
       | Some steps => Some (mkwf (wr_name r) (wr_config r) (wr_inp r) (wr_outp r) ports steps)
       | None => None
@@ -235,6 +271,8 @@ Definition ok_step (names : list string) (s : pstep) : bool :=
   | KScatter => match alookup "__size__" (s_out s) with Some _ => true | None => false end
   | KGather _ => match alookup "__size__" (s_in s) with Some _ => true | None => false end
   | KJobIn _ | KExecute _ => match alookup "__job__" (s_in s) with Some _ => true | None => false end
+  | KDeploy dc => match alookup (dp_name dc) (s_out s) with Some _ => true | None => false end
+  | KSchedule _ _ _ => match alookup "__job__" (s_out s) with Some _ => true | None => false end
   | KComb _ _ | KPlain _ => true
   end.
 
